@@ -16,7 +16,8 @@ META = {
     "bounds": {"quick": "tag sequences of <=2 slots over 20 tag texts (positive/negative/alias prefixes for 3 categories, malformed values, unknown "
                         "category, ordinary tags) - order matters and is enumerated; current values symbolic: string category over 4 values or unknown, "
                         "numeric category an unbounded integer (compare ge / le / eq) or unknown, boolean category; provider kinds dict / "
-                        "ActiveTagValueProvider with lazy callables / composite provider; composite matcher of two",
+                        "ActiveTagValueProvider with lazy callables / composite provider; composite matcher of two; two-decision histories: lazy value objects "
+                        "reading a cell that changes (symbolically) between the first and the checked decision",
                "thorough": "<=3 slots"},
     "outside": ["tag schemas with custom regular expressions", "python-version value objects of behave.active_tag.python (string kernel in C)"],
     "assumptions": ["documented formula: excluded <=> for some category known to the provider: (positive tags exist and none matches) or (a negative tag matches)"],
@@ -71,9 +72,17 @@ def h_active(sx):
     cmp_name = p.get("ver_compare", "ge")
     cmp = {"ge": operator.ge, "le": operator.le, "eq": operator.eq}[cmp_name]
     lazy = p.get("lazy")
-    values = {"os": (lambda: os_cur) if lazy else os_cur,
-              "ver": NumberValueObject((lambda: ver_cur) if lazy else ver_cur, cmp),
-              "flag": BoolValueObject(flag_cur)}
+    history = p.get("history")
+    if history:
+        # two-decision history: every current value is a lazy value object reading a mutable cell; an earlier
+        # decision is taken with other (symbolic) current values, then the cell changes
+        cell = {"os": sx.choice("os0", OS_VALUES), "ver": sx.int("ver0"), "flag": sx.bool("flag0")}
+        values = {"os": ValueObject(lambda: cell["os"]), "ver": NumberValueObject(lambda: cell["ver"], cmp),
+                  "flag": BoolValueObject(lambda: cell["flag"])}
+    else:
+        values = {"os": (lambda: os_cur) if lazy else os_cur,
+                  "ver": NumberValueObject((lambda: ver_cur) if lazy else ver_cur, cmp),
+                  "flag": BoolValueObject(flag_cur)}
     kind = p.get("provider", "dict")
     prov = Provider(sx, values)
     if kind == "atvp":
@@ -97,6 +106,10 @@ def h_active(sx):
         matcher = CompositeTagMatcher([matcher, other])
     import logging
     logging.disable(logging.CRITICAL)
+    if history:
+        first = bool(matcher.should_exclude_with(["wip", "not.with_ver=5"]))
+        seen = [v.value for v in values.values()]        # reading .value (as repr/str do) must not freeze it either
+        cell.update({"os": os_cur, "ver": ver_cur, "flag": flag_cur})
     excluded = bool(matcher.should_exclude_with(list(tags)))
     runs = bool(matcher.should_run_with(list(tags)))
     # ---- documented formula
@@ -166,7 +179,8 @@ def jobs(tier, seed):
     slots = 2 if tier == "quick" else 3
     variants = [{"ver_compare": "ge"}, {"ver_compare": "le", "lazy": True}, {"ver_compare": "eq", "provider": "atvp"},
                 {"ver_compare": "ge", "provider": "composite"}, {"ver_compare": "ge", "composite_matcher": True},
-                {"ver_compare": "ge", "provider": "atvp-real"}, {"ver_compare": "le", "provider": "composite-real"}]
+                {"ver_compare": "ge", "provider": "atvp-real"}, {"ver_compare": "le", "provider": "composite-real"},
+                {"ver_compare": "ge", "history": True}, {"ver_compare": "eq", "history": True, "provider": "composite-real"}]
     for i, v in enumerate(variants):
         js.append(Job("active.v%d" % i, "props.c19:h_active", dict(v, slots=slots if i == 0 else 2),
                       reach=["C19.excluded==documented-formula"], min_paths=100, cost=1000 if i == 0 else 100,
